@@ -172,6 +172,12 @@ def run(chk):
                 tb = shuffle_tree(rng, ta)          # same topology, other order
             elif r < 0.45:
                 tb = ta
+            elif r < 0.6 and len(ta) == 2 and any(isinstance(x, list) for x in ta):
+                # the same unrooted tree written with the root elsewhere: (X,(y1,y2)) -> (X,y1,y2)
+                j = [i for i, x in enumerate(ta) if isinstance(x, list)][0]
+                tb = [ta[1 - j]] + list(ta[j])
+                if rng.random() < 0.5:
+                    tb = shuffle_tree(rng, tb)
             else:
                 tb = rand_tree(rng, range(k))
             cases.append((k, ta, tb, rng.random() < 0.4, 'random'))
@@ -199,6 +205,14 @@ def run(chk):
                 # an apostrophe in a name (Xi'an, Hawai'i): the writer quotes the label and doubles the apostrophe
                 for i in rng.sample(range(k), rng.choice([1, 2])):
                     names[i] = "Xi'an%d" % i
+            elif k <= 12 and rng.random() < 0.2:
+                # names that contain other names (English / Old_English; L1 / L10)
+                pool = rng.choice([['English', 'Old_English', 'Dutch', 'Middle_Dutch', 'German', 'Low_German', 'Frisian', 'North_Frisian', 'Norse',
+                                    'Old_Norse', 'Saxon', 'Old_Saxon'], ['L%d' % (10 ** (i % 3) + i // 3) for i in range(12)]])
+                order = list(range(k))
+                rng.shuffle(order)
+                names = {i: pool[j] for i, j in zip(order, range(k))}
+                chk.hist['taxon names that contain other taxon names'] += 1
             sa = newick(ta, names, lengths, rng)
             sb = newick(tb, names, lengths, rng)
             try:
@@ -306,6 +320,8 @@ def run(chk):
                 sd = A.get_distance(B, 'symmetric')
                 if (sd == 0) != (spa == spb):
                     fails.append((sa, sb, "'symmetric' distance %r contradicts the split sets" % sd))
+                elif sd != len(spa ^ spb):
+                    fails.append((sa, sb, "'symmetric' distance %r is not the size %d of the symmetric difference of the split sets" % (sd, len(spa ^ spb))))
             except Exception:
                 pass
         chk.sample({'treeA': sa, 'treeB': sb, 'rf': rf, 'grf': grf}, limit=3)
